@@ -60,9 +60,9 @@ class Creators:
       if gfa_line.record_type not in self._records:
         self._records[gfa_line.record_type] = {}
       key = gfa_line.name
-      if gfapy.is_placeholder(key):
+      if gfapy.is_placeholder(key) or not isinstance(key, str):
         key = id(gfa_line)
-      elif isinstance(key, str) and key.isdigit() and key.isascii():
+      elif key.isdigit() and key.isascii() and len(key) < 1000:
         keynum = int(key)
         if keynum > self._max_int_name:
           self._max_int_name = keynum
